@@ -66,7 +66,7 @@ TakeSnap(i) == FSnap /\ Snapshot(i) /\ Keep
 Xfer(i, x) == FTransfer /\ Transfer(i, x) /\ Keep
 DoCrash(i) == /\ FCrash /\ cnt.crash < MaxCrash /\ Crash(i, FALSE) /\ cnt' = [cnt EXCEPT !.crash = @ + 1]
 DoRestart(i) == FCrash /\ dur[i] # NoDur /\ Restart(i) /\ Keep
-Take(i) == TakeReady(i, st[i].commit) /\ Keep
+Take(i) == TakeReady(i, IF st[i].commit >= HFrom(st[i]) THEN st[i].commit ELSE 0) /\ Keep
 TakeNone(i) == FPartial /\ st[i].commit >= HFrom(st[i]) /\ TakeReady(i, 0) /\ Keep
 PersistAll(i) == Persist(i, "all") /\ Keep
 PersistEntsOnly(i) == FPartial /\ Persist(i, "ents") /\ Keep
@@ -75,13 +75,20 @@ DoSend(i) == Send(i) /\ Keep
 DoAdvance(i) == Advance(i) /\ Keep
 DoApplyConf(i) == ApplyConf(i) /\ Keep
 
+\* labelled forms (arguments are simple values, so TLC's action labels can steer the driver)
+MsgTypes == {"MsgVote", "MsgVoteResp", "MsgPreVote", "MsgPreVoteResp", "MsgApp", "MsgAppResp", "MsgHeartbeat",
+             "MsgHeartbeatResp", "MsgSnap", "MsgTimeoutNow", "MsgProp", "MsgTransferLeader"}
+DeliverL(i, j, t) == \E m \in net : m.to = i /\ m.from = j /\ m.t = t /\ Deliver(i, m)
+DupDeliverL(i, j, t) == \E m \in net : m.to = i /\ m.from = j /\ m.t = t /\ DupDeliver(i, m)
+ConfReqL(i, k, x) == <<k, x>> \in ConfOps /\ ConfReq(i, <<k, x>>)
+
 MCNext ==
   \/ \E i \in Server : Timeout(i) \/ StepDown(i) \/ ClientReq(i) \/ Join(i) \/ TakeSnap(i)
                        \/ DoCrash(i) \/ DoRestart(i) \/ Take(i) \/ TakeNone(i) \/ PersistAll(i)
                        \/ PersistEntsOnly(i) \/ PersistHSAfter(i) \/ DoSend(i) \/ DoAdvance(i) \/ DoApplyConf(i)
-  \/ \E i \in Server, op \in ConfOps : ConfReq(i, op)
+  \/ \E i, x \in Server, k \in {"av", "al", "rm"} : ConfReqL(i, k, x)
   \/ \E i, j \in Server : Resend(i, j) \/ Beat(i, j) \/ SnapTo(i, j) \/ Xfer(i, j)
-  \/ \E m \in net : Deliver(m.to, m) \/ DupDeliver(m.to, m)
+  \/ \E i, j \in Server, t \in MsgTypes : DeliverL(i, j, t) \/ DupDeliverL(i, j, t)
 
 MCSpec == MCInit /\ [][MCNext]_mcvars
 
